@@ -233,6 +233,9 @@ def spec04 (st : SState) (line : String) : SState × String :=
         -- representability: RFC 8415 §21.15 — a User Class option holds one or more instances of user class data, so the empty
         -- list is not an argument the option can express (libtins encodes it as a zero-length option and rejects that)
         else if name == "user_class" && rest == ["empty"] then (st, "unspecified")
+        -- RFC 8415 §11.1: a DUID is a type code followed by the octets that make up the identifier; a DUID without any
+        -- identifier octet is not one the option can express (the decoder asks for at least one)
+        else if (name == "client_id" || name == "server_id") && rest.getLast? == some "-" then (st, "unspecified")
         else if st.typed.contains (i, name) then (st, "unspecified")
         else ({ st with typed := (i, name) :: st.typed }, "unspecified")
     | ["show"] =>
